@@ -91,6 +91,32 @@ def stage_resolve(ctx, rng, d, gtyping, gmodel):
             "several_maximal": multi, "functions": len(cases), "sample": sample}
 
 
+def real_ties(ctx, rng, d, gtyping):
+    """Search on the implementation only: resolve every tuple of arity <= 2 with the REAL find_candidates and look
+    for maximal-score candidates that differ in cast vector or return type (what sort_unstable_by would decide)."""
+    kinds = input_kinds(d)
+    names = d["type_ids"]
+    cases = []
+    for kind in ("scalar", "aggregate"):
+        for si, f in enumerate(d[kind]):
+            tuples = [[a] for a in kinds] + [[a, b] for a in kinds for b in kinds]
+            cases.append({"id": "%s%d" % (kind[0], si), "kind": kind, "set": si, "tuples": [[int(a) if ":" not in a else a for a in t] for t in tuples]})
+    real = common.run_harness(gtyping, "resolve", cases, timeout=900)
+    found, n = [], 0
+    for c, r in zip(cases, real):
+        f = d[c["kind"]][c["set"]]
+        for t, a in zip(c["tuples"], r.get("out") or []):
+            n += 1
+            if not a.startswith("C"):
+                continue
+            cands = [x.split(":") for x in a.split("|", 1)[1].split(";")]
+            mx = max(int(x[1]) for x in cands)
+            top = [x for x in cands if int(x[1]) == mx]
+            if len(set((x[2], f["sigs"][int(x[0])]["ret"]) for x in top)) > 1 and len(found) < 40:
+                found.append({"function": f["name"], "kind": c["kind"], "arg_types": [names[int(str(x).split(":")[0])] for x in t], "real_find_candidates": a[:800]})
+    return found, n
+
+
 def stage_ties(d, gmodel):
     """The extracted ties_of over the regenerated tables: the tuples whose maximal candidates disagree."""
     out = common.run_model(gmodel, "ties", [], timeout=900)
@@ -543,7 +569,7 @@ def stage_sql(ctx, rng, d, gverif, gmodel):
         lb = la if rng.chance(55) else 1 + rng.below(3)
         upairs.append(([rng.choice(allitems) for _ in range(la)], [rng.choice(allitems) for _ in range(lb)]))
     ulines = ["%s | %s" % (" ".join(enc(items[a]) for a in l), " ".join(enc(items[b]) for b in r)) for l, r in upairs]
-    uout = common.run_model(gmodel, "union", ulines)
+    uout = common.run_model(gmodel, "union", ulines) if gmodel else [None] * len(ulines)
     kws = ["union all", "union", "union all", "except", "intersect"]
     usql = ["select %s from t %s select %s from t" % (", ".join(l), kws[i % len(kws)] if i >= ncolpairs + nparam else "union all", ", ".join(r)) for i, (l, r) in enumerate(upairs)]
     res1 = run_stmts(gverif, setup, [], ["describe " + x for x in usql], chunk=600)
@@ -554,6 +580,13 @@ def stage_sql(ctx, rng, d, gverif, gmodel):
         ds = desc_schema(r)
         if len(l) != len(r0):
             nun_arity += 1
+        if mo is None:
+            # no model prediction (a resolution constant is missing): implementation-side rules only
+            if ds is not None and len(l) != len(r0):
+                viol.append({"kind": "set operation with different column counts is announced (bind_setop.rs must reject it)", "sql": x, "stmts": setup + ["describe " + x, x], "describe": ds})
+            elif ds is not None and " union all " in x:
+                to_run.append((x, [c[1] for c in ds], "no model"))
+            continue
         if mo == "err":
             if ds is not None:
                 viol.append({"kind": "set operation with different column counts is announced (bind_setop.rs must reject it)" if len(l) != len(r0)
@@ -748,7 +781,15 @@ def run(ctx):
     rng = common.Rng(ctx["seed"])
     out = {"violations": [], "known": [], "assumptions": []}
     gtyping, _ = common.build_harness(bin="gv_typing")
-    d = tables_typing.regenerate(gtyping)
+    try:
+        d = tables_typing.regenerate(gtyping)
+    except (SystemExit, Exception) as e:
+        # the built crates cannot be dumped: nothing the model could run over; reported, not raised
+        out["violations"].append({"what": "gv_typing dump-tables failed: the signature / score tables of the build cannot be read",
+                                  "replay": {"error": str(e)[:600]}, "no_input": True})
+        out["coverage"] = {"obligations": 0, "discharged": 0, "evaluations": 0, "theorems": [], "trusted_base": [], "rule": "", "samples": []}
+        out["wall"] = time.time() - t0
+        return out
     gverif, _ = common.build_harness()
     pr = common.coq_props(PROPS)
     audit = [a for a in common.audit_sources() if re.search(r"(Resolve|Typing|C18)", a)]
@@ -759,32 +800,59 @@ def run(ctx):
     t1 = time.time()
     ties, multi, s1, s2, s3 = [], 0, None, None, None
     t2 = t3 = t1
+    machinery = []
+    # the model runs over src_params: every constant it is built from must have been found
+    need = ["no_cast_score", "refined_literal_bonus", "default_score_i8", "default_score_i16", "default_score_i32", "default_score_i64"]
+    missing = [k for k in need if d.get(k) is None] + [k for k in ("variadic_same_score", "setop_full_type_equality", "setop_arity_check") if d["_src"].get(k) is None] + \
+              [n for n in ("Any", "Int8", "Int16", "Int32", "Int64") if n not in d["type_ids"]]
+    params_ok = not [k for k in missing if not k.startswith("setop_")]
+    gmodel = None
     try:
         gmodel = common.build_ocaml("typing")
-    except SystemExit as e:
-        gmodel = None
-        out["violations"].append({"what": "extraction of model/Resolve.v over the regenerated tables failed", "replay": {"error": str(e)}, "no_input": True})
+    except (SystemExit, Exception) as e:
+        machinery.append("extraction of model/Resolve.v over the regenerated tables failed: %s" % str(e)[:300])
+
+    def guarded(name, f):
+        try:
+            return f()
+        except (SystemExit, Exception) as e:
+            machinery.append("%s: %s" % (name, str(e)[:300]))
+            return None
+
+    pmodel = gmodel if params_ok else None        # commands that need src_params
+    if pmodel:
+        tr = guarded("ties", lambda: stage_ties(d, pmodel))
+        if tr:
+            ties, multi, complete = tr
+        s1 = guarded("resolve correspondence", lambda: stage_resolve(ctx, rng, d, gtyping, pmodel))
+    else:
+        # no model predictions: search the implementation for a tie directly
+        rtie = guarded("real tie search", lambda: real_ties(ctx, rng, d, gtyping))
+        if rtie:
+            for w in rtie[0]:
+                out["violations"].append({"what": "function resolution has a genuine tie on the implementation: maximal-score candidates with different casts/return type (sort_unstable_by decides)",
+                                          "replay": w, "no_input": False})
+            s1 = {"n": rtie[1], "mismatches": [], "distinct": 0, "sample": None}
+    t2 = time.time()
+    s2 = guarded("sql", lambda: stage_sql(ctx, rng, d, gverif, pmodel))
     if gmodel:
-        ties, multi, complete = stage_ties(d, gmodel)
-        s1 = stage_resolve(ctx, rng, d, gtyping, gmodel)
-        t2 = time.time()
-        s2 = stage_sql(ctx, rng, d, gverif, gmodel)
-        s3 = stage_typeof(ctx, rng, gverif, gmodel)
-        t3 = time.time()
-        for v in s3["violations"][:40]:
-            out["violations"].append({"what": v["kind"], "replay": v, "no_input": False})
-        for m in s1["mismatches"][:30]:
-            out["violations"].append({"what": "real find_exact/find_candidates differs from the model (model/Resolve.v)", "replay": m, "no_input": False})
-        # a genuine tie: the tuple is the witness; show what the real binder does with it
-        if ties:
-            cases = [{"id": "t%d" % i, "kind": t["kind"], "set": t["set"],
-                      "tuples": [[int(a) if ":" not in a else "%s:%d" % (a.split(":")[0], {"L8": 5, "L16": 300, "L32": 70000, "L64": 5000000000}[a.split(":")[1]]) for a in t["raw"]]]}
-                     for i, t in enumerate(ties[:40])]
-            real = common.run_harness(gtyping, "resolve", cases, timeout=300)
-            for t, r in zip(ties[:40], real):
-                out["violations"].append({"what": "function resolution has a genuine tie: maximal-score candidates with different casts/return type (sort_unstable_by decides)",
-                                          "replay": {"function": t["function"], "kind": t["kind"], "arg_types": t["args"], "real_find_candidates": (r.get("out") or ["?"])[0][:800]},
-                                          "no_input": False})
+        s3 = guarded("type_of correspondence", lambda: stage_typeof(ctx, rng, gverif, gmodel))
+    t3 = time.time()
+    for v in (s3 or {"violations": []})["violations"][:40]:
+        out["violations"].append({"what": v["kind"], "replay": v, "no_input": False})
+    for m in (s1 or {"mismatches": []})["mismatches"][:30]:
+        out["violations"].append({"what": "real find_exact/find_candidates differs from the model (model/Resolve.v)", "replay": m, "no_input": False})
+    # a genuine tie: the tuple is the witness; show what the real binder does with it
+    if ties:
+        cases = [{"id": "t%d" % i, "kind": t["kind"], "set": t["set"],
+                  "tuples": [[int(a) if ":" not in a else "%s:%d" % (a.split(":")[0], {"L8": 5, "L16": 300, "L32": 70000, "L64": 5000000000}[a.split(":")[1]]) for a in t["raw"]]]}
+                 for i, t in enumerate(ties[:40])]
+        real = common.run_harness(gtyping, "resolve", cases, timeout=300)
+        for t, r in zip(ties[:40], real):
+            out["violations"].append({"what": "function resolution has a genuine tie: maximal-score candidates with different casts/return type (sort_unstable_by decides)",
+                                      "replay": {"function": t["function"], "kind": t["kind"], "arg_types": t["args"], "real_find_candidates": (r.get("out") or ["?"])[0][:800]},
+                                      "no_input": False})
+    if s2:
         for v in s2["violations"]:
             out["violations"].append({"what": v.get("kind", "violation"), "replay": v, "no_input": False})
         listed = {k["id"]: k for k in common.known_findings()["known"] if k["property"] == PID}
@@ -793,10 +861,17 @@ def run(ctx):
                 out["known"].append("%s: %s (%d statement(s), e.g. %s)" % (k, listed[k]["what"], len(v), v[0]["sql"]))
             else:
                 out["violations"].append({"what": "finding class %s is not listed in findings/C18.json" % k, "replay": v[0], "no_input": False})
+    if (missing or machinery) and not proof_broken:
+        found = [v["replay"] for v in out["violations"][:3]]
+        out["violations"].append({"what": ("source constants not found (vlib/tables_typing.py / gv_typing dump-tables): %s" % ", ".join(missing)) if missing else machinery[0],
+                                  "replay": {"missing_constants": missing, "machinery": machinery, "failing_inputs_found_on_the_implementation": found},
+                                  "no_input": not found})
     if proof_broken:
         out["violations"].append({"what": "theorem(s) in %s no longer check" % PROPS,
                                   "replay": {"failed_at": pr.get("failed_at"), "log_tail": pr["log"][-1500:] if not pr["ok"] else "",
-                                             "assumption_problems": bad_assum, "audit": audit, "ties_found_by_the_extracted_model": ties[:10]},
+                                             "assumption_problems": bad_assum, "audit": audit, "ties_found_by_the_extracted_model": ties[:10],
+                                             "missing_constants": missing, "machinery": machinery,
+                                             "failing_inputs_found_on_the_implementation": [v["replay"] for v in out["violations"][:3]]},
                                   "no_input": not ties and not out["violations"]})
     cov = {
         "obligations": len(obligations), "discharged": discharged,
@@ -819,6 +894,7 @@ def run(ctx):
         "samples": [s1["sample"] if s1 else None, s2["sample"] if s2 else None],
         "resolve": {k: v for k, v in (s1 or {}).items() if k not in ("mismatches", "sample")},
         "ties_in_tables": len(ties), "tuples_with_several_maximal_candidates_all_agreeing": multi,
+        "missing_source_constants": missing, "machinery_failures": machinery,
         "sql": (s2 or {}).get("info"),
         "tables": {"type_ids": len(d["type_ids"]), "scalar_sets": len(d["scalar"]), "aggregate_sets": len(d["aggregate"]),
                    "signatures": sum(len(f["sigs"]) for f in d["scalar"] + d["aggregate"]),
